@@ -5,6 +5,8 @@ import JominiModel.Proofs.TextDeStream
 import JominiModel.Proofs.TextDeTape
 import JominiModel.Proofs.TextDeTapeNested
 import JominiModel.Proofs.TextEndToEnd
+import JominiModel.Proofs.TextDeKnown
+import JominiModel.Proofs.TextDeAgree
 /-
 C02 — Text deserialization returns the document's values on both parse paths.
 Only property theorems live here; helper lemmas are in `Proofs/TextDe*.lean`.
@@ -158,5 +160,117 @@ example :
     simp only [List.mem_cons, Prod.mk.injEq, List.not_mem_nil, or_false] at hm
     obtain ⟨_, _, rfl⟩ := hm
     exact FitsT.scalar rfl
+
+/-! ### every target type: error agreement and where it ends -/
+
+/-- Error agreement for EVERY root target type (not only fitting ones): for every well-formed
+save-style document, the tape path and the stream path return the same result -- `ok` with the same
+value, or `error` with the same error class -- and that result is the spec's `valueOf`; unless the
+(type, document) pair contains one of the combinations of `Bad` (`any` on an object or a header
+value; an enum on a container; a sequence on a non-array; a map / struct on a non-empty array or a
+header value; `Property` outside field position).  `Bad` is necessary for a disagreement, and every
+atomic combination of it does disagree on some document: `C02_divergent_witnesses`. -/
+theorem C02_error_agreement (enc : Enc) (ty : Ty) (d : Doc) (hroot : Ty.isRoot ty = true)
+    (hwf : wfFields d = true) :
+    (deTape enc ty (tapeOf d) = deStream enc ty (lexemes d) ∧ deTape enc ty (tapeOf d) = valueOf enc ty d) ∨
+    Bad enc false ty (.obj d) :=
+  error_agreement enc ty d hroot hwf
+
+/-- the agreeing side of `C02_error_agreement` contains errors: an integer requested for an object,
+a struct requested for a scalar, an unparsable number -- both paths answer with the same error class -/
+example : deTape .utf8 (.st [([120], .i64), ([121], .st []), ([122], .u32)])
+      (tapeOf [([120], .eq, .obj []), ([121], .eq, .leaf ⟨[49], false⟩)]) = .error .type ∧
+    deStream .utf8 (.st [([120], .i64), ([121], .st []), ([122], .u32)])
+      (lexemes [([120], .eq, .obj []), ([121], .eq, .leaf ⟨[49], false⟩)]) = .error .type := by
+  constructor <;> rfl
+
+/-- the classification is exhaustive -/
+theorem C02_fits_or_bad (enc : Enc) (ty : Ty) (b : Bool) (v : Node) : FitsT enc b ty v ∨ Bad enc b ty v :=
+  fitsT_or_bad enc (ty.height + 1) ty b v (Nat.lt_succ_self _)
+
+/-- Every atomic combination of `Bad` is a real divergence: for each (type, value) pair of
+`divergentWitnesses` (`any` on an object / on an array holding an object / on a header value, an
+enum on an object / array, a sequence on a scalar / object / header value, a map or struct on a
+non-empty array / header value, `Property` as an array element / nested), the document
+`x=<value> w=z` deserialized into `st(x:<type>, w:opt(str))` gives DIFFERENT results on the two
+paths (different values, or different error classes, or one succeeds).  The same witnesses run
+against the real code in the harness (fixed cases `divergent:*`), where each path is compared with
+its model. -/
+theorem C02_divergent_witnesses :
+    ∀ p ∈ Jomini.TextE2E.divergentWitnesses,
+      deTape .utf8 (Jomini.TextE2E.witnessTy p.1) (tapeOf (Jomini.TextE2E.witnessDoc p.2)) ≠
+      deStream .utf8 (Jomini.TextE2E.witnessTy p.1) (lexemes (Jomini.TextE2E.witnessDoc p.2)) := by
+  intro p hp heq
+  have h := List.all_eq_true.mp Jomini.TextE2E.divergent_all p hp
+  rw [Jomini.TextE2E.resBeq_of_eq heq] at h
+  exact absurd h (by decide)
+
+/-- `any` on an object: the tape path presents a map, the stream path the bare token sequence
+(`deserialize_any` on `Token::Open` is `deserialize_seq`, and the stream `SeqAccess` yields one element
+per token, operators included) -- so no shared `valueOf` exists there, while `any` on arrays of
+scalars / arrays / header values (any depth) is inside `Fits` and covered by every C02 theorem. -/
+theorem C02_any_on_object_paths_differ :
+    deTape .utf8 (.st [([120], .any)]) (tapeOf [([120], .eq, .obj [([97], .eq, .leaf ⟨[49], false⟩)])])
+      = .ok (.st [([120], .map [(.str [97], .str [49])])]) ∧
+    deStream .utf8 (.st [([120], .any)]) (lexemes [([120], .eq, .obj [([97], .eq, .leaf ⟨[49], false⟩)])])
+      = .ok (.st [([120], .seq [.str [97], .str [61], .str [49]])]) := by
+  constructor <;> rfl
+
+/-- `any` on nested arrays (with a header value inside): both paths, the spec's tree -/
+example : deTape .utf8 (.st [([120], .any)])
+      (tapeOf [([120], .eq, .arr [.leaf ⟨[49], false⟩, .arr [.leaf ⟨[50], true⟩], .hdr [114] (.arr [])])])
+      = .ok (.st [([120], .seq [.str [49], .seq [.str [50]], .str [114], .seq []])]) ∧
+    deStream .utf8 (.st [([120], .any)])
+      (lexemes [([120], .eq, .arr [.leaf ⟨[49], false⟩, .arr [.leaf ⟨[50], true⟩], .hdr [114] (.arr [])])])
+      = .ok (.st [([120], .seq [.str [49], .seq [.str [50]], .str [114], .seq []])]) := by
+  constructor <;> rfl
+
+/-! ### the known findings, on the models (the fragment boundaries of the theorems above are tight) -/
+
+/-- Known finding `array-leading-empty`, reproduced on the models from the same BYTES `a={ {} x y }`
+into `st(a:seq(ign))`: the tape parser drops the empty `{}` that stands first in the array, the slice
+reader keeps it; the tape path yields 2 elements, the streaming path 3.  (Outside `SPlainF`: a ghost
+`{}` at the start of a container.) -/
+theorem C02_known_array_leading_empty_breaks :
+    ∃ (T : List TextTape.Tok) (b : Bool),
+      TextTape.parse Jomini.TextE2E.bytesLeadingEmpty = .ok T b ∧
+      (TextReader.sliceTokens Jomini.TextE2E.bytesLeadingEmpty).out = .end_ ∧
+      deTape .utf8 (.st [([97], .seq .ign)]) (Jomini.TextE2E.toTextDeTape T)
+        = .ok (.st [([97], .seq [.ign, .ign])]) ∧
+      deStream .utf8 (.st [([97], .seq .ign)])
+          ((TextReader.sliceTokens Jomini.TextE2E.bytesLeadingEmpty).toks.map Jomini.TextE2E.toRTok)
+        = .ok (.st [([97], .seq [.ign, .ign, .ign])]) ∧
+      deTape .utf8 (.st [([97], .seq .ign)]) (Jomini.TextE2E.toTextDeTape T) ≠
+        deStream .utf8 (.st [([97], .seq .ign)])
+          ((TextReader.sliceTokens Jomini.TextE2E.bytesLeadingEmpty).toks.map Jomini.TextE2E.toRTok) := by
+  have h1 : deTape .utf8 (.st [([97], .seq .ign)]) (Jomini.TextE2E.toTextDeTape
+      [.unquoted ⟨12, [97]⟩, .array 4 false, .unquoted ⟨5, [120]⟩, .unquoted ⟨3, [121]⟩, .endTok 1])
+      = .ok (.st [([97], .seq [.ign, .ign])]) := by rfl
+  have h2 : deStream .utf8 (.st [([97], .seq .ign)])
+      ((TextReader.sliceTokens Jomini.TextE2E.bytesLeadingEmpty).toks.map Jomini.TextE2E.toRTok)
+      = .ok (.st [([97], .seq [.ign, .ign, .ign])]) := by
+    rw [Jomini.TextE2E.leadingEmpty_lex.1]; rfl
+  refine ⟨_, _, Jomini.TextE2E.leadingEmpty_parse, Jomini.TextE2E.leadingEmpty_lex.2, h1, h2, ?_⟩
+  rw [h1, h2]; simp
+
+/-- Known finding `text-reader-header`, reproduced on the models from the same BYTES
+`color = rgb { 1 2 3 }` into `st(color:seq(any))`: the tape path reads the header value as a
+two-element sequence (header, body -- each presented by `deserialize_any` as the body), the streaming
+path ignores the current token in `deserialize_seq` and runs into the end of the input.  (Outside
+`Fits`: a sequence target on a header value.) -/
+theorem C02_known_text_reader_header_breaks :
+    ∃ (T : List TextTape.Tok) (b : Bool),
+      TextTape.parse Jomini.TextE2E.bytesHeaderSeq = .ok T b ∧
+      (TextReader.sliceTokens Jomini.TextE2E.bytesHeaderSeq).out = .end_ ∧
+      deTape .utf8 (.st [(Jomini.TextE2E.keyColor, .seq .any)]) (Jomini.TextE2E.toTextDeTape T)
+        = .ok (.st [(Jomini.TextE2E.keyColor,
+            .seq [.seq [.str [49], .str [50], .str [51]], .seq [.str [49], .str [50], .str [51]]])]) ∧
+      deStream .utf8 (.st [(Jomini.TextE2E.keyColor, .seq .any)])
+          ((TextReader.sliceTokens Jomini.TextE2E.bytesHeaderSeq).toks.map Jomini.TextE2E.toRTok)
+        = .error .other := by
+  have h2 : deStream .utf8 (.st [(Jomini.TextE2E.keyColor, .seq .any)])
+      ((TextReader.sliceTokens Jomini.TextE2E.bytesHeaderSeq).toks.map Jomini.TextE2E.toRTok) = .error .other := by
+    rw [Jomini.TextE2E.headerSeq_lex.1]; rfl
+  exact ⟨_, _, Jomini.TextE2E.headerSeq_parse, Jomini.TextE2E.headerSeq_lex.2, by rfl, h2⟩
 
 end Jomini.Props.C02
